@@ -61,6 +61,7 @@ fn exec(a: &[String]) {
     }
     let p: Program = serde_json::from_str(&std::fs::read_to_string(&prog).expect("read program")).expect("decode program");
     cvh::exec::ALLOW_CHDIR.store(true, std::sync::atomic::Ordering::SeqCst);
+    cvh::exec::IN_DRIVER.store(true, std::sync::atomic::Ordering::SeqCst);
     let ctx = Ctx::new(cache, scratch, &p.keys, &p.blobs);
     ctx.dest_n.set(from * 1000);
     // materialise blobs before any window opens so that lazily generating them is not
@@ -111,6 +112,7 @@ fn step_blob(s: &Step) -> Option<usize> {
 }
 
 fn server() {
+    cvh::exec::IN_DRIVER.store(true, std::sync::atomic::Ordering::SeqCst);
     let stdin = std::io::stdin();
     let mut stdout = std::io::stdout();
     for line in stdin.lock().lines() {
